@@ -1407,6 +1407,7 @@ func (self *_Assembler) _asm_OP_num(_ *_Instr) {
 	self.WriteRecNotAX(13, _DI, jit.Ptr(_VP, 0), false, false)
 	self.Emit("CMPQ", _VAR_fl, jit.Imm(1))
 	self.Sjmp("JNE", "_num_end_{n}")
+	self.check_eof(1)
 	self.Emit("CMPB", jit.Sib(_IP, _IC, 1, 0), jit.Imm('"'))
 	self.Sjmp("JNE", _LB_char_0_error)
 	self.Emit("ADDQ", jit.Imm(1), _IC)
